@@ -35,6 +35,9 @@ pub const S_BOUNDARY_S: u8 = 15;
 pub const S_SPECIAL_R: u8 = 16;
 pub const S_NONCANONICAL_KEY: u8 = 17;
 pub const S_CRAFTED_S: u8 = 18;
+// honest signer working from an extended secret whose scalar part is NOT clamped (the documented ad-hoc use of
+// signature_extended / extended_to_public): what signing produces must verify
+pub const S_UNCLAMPED_EXT: u8 = 19;
 const KINDS: &[&str] = &[
     "deliver_untouched",
     "flip_signature_bit",
@@ -55,6 +58,7 @@ const KINDS: &[&str] = &[
     "special_encoding_r",
     "noncanonical_public_key_encoding",
     "crafted_equation_with_boundary_s",
+    "honest_signature_from_unclamped_extended_secret",
 ];
 
 /// encodings that decode to the identity but are not its canonical 32 bytes:
@@ -186,6 +190,9 @@ impl SigChannel {
         // key: the equation holds for ANY S, so only the canonicity rule decides (accept iff S < L)
         for _ in 0..20 {
             ops.push(Op::new(0, S_CRAFTED_S).arg(rng.below(5 * 256 * 3)).off(rng.range(0, 7) as u8).seed(rng.data_seed()));
+        }
+        for v in 0..6u64 {
+            ops.push(Op::new(0, S_UNCLAMPED_EXT).arg(v).seed(rng.data_seed()));
         }
         // R given as a non-canonical encoding of the point the equation yields: byte equality must fail
         for j in 0..8u64 {
@@ -430,6 +437,46 @@ impl Scenario for SigChannel {
                     }
                     use_model = true;
                 }
+                S_UNCLAMPED_EXT => {
+                    // extended secret = scalar (32 bytes, below 2^255, not clamped) || prefix (32 bytes)
+                    let mut ext = [0u8; 64];
+                    ext.copy_from_slice(&data(op.seed | 16, 64));
+                    match op.arg % 6 {
+                        0 => ext[31] &= 0x7f,                       // any scalar below 2^255
+                        1 => {
+                            // tiny scalar 1..=16 (low bits set: not a multiple of 8)
+                            let k = 1 + (op.seed % 16) as u8;
+                            for b in ext[..32].iter_mut() {
+                                *b = 0;
+                            }
+                            ext[0] = k;
+                        }
+                        2 => ext[31] &= 0x0f,                       // already reduced (below 2^252 < L)
+                        3 => {
+                            ext[31] &= 0x7f;
+                            ext[31] |= 0x40;                        // bit 254 set like a clamped scalar, low bits free
+                            ext[0] |= 1;
+                        }
+                        4 => {
+                            ext[..32].copy_from_slice(&big::L);     // L - 1: the largest reduced scalar
+                            ext[0] -= 1;
+                        }
+                        _ => {
+                            ext[..32].copy_from_slice(&big::L);     // L + small: unreduced, congruent to a tiny scalar
+                            ext[0] += 1 + (op.seed % 8) as u8;
+                        }
+                    }
+                    p = guarded(|| ed25519::extended_to_public(&ext)).map_err(|e| Violation::new("unexpected-panic", i, "extended_to_public", e, "ed25519"))?;
+                    m = data(op.seed ^ 0x77, msg.len());
+                    s = guarded(|| ed25519::signature_extended(&m, &ext)).map_err(|e| Violation::new("unexpected-panic", i, "signature_extended", e, "ed25519"))?;
+                    obs.out(&p);
+                    obs.out(&s);
+                    want = true;
+                    // the independent model must agree that what the signer produced satisfies the equation
+                    if med::verify(&m, &p, &s) != med::Verdict::Accept {
+                        return Err(Violation::new("rejected-honest", i, "a signature satisfying the RFC 8032 equation", "independent model rejects (public key, signature) produced by extended_to_public / signature_extended", format!("ed25519 signing from an unclamped extended secret, class {} (message {} bytes)", op.arg % 6, m.len())));
+                    }
+                }
                 S_TORSION_NONCANONICAL_R => {
                     let j = (op.arg % 8) as usize;
                     let e = ((op.arg / 8) % 3) as usize;
@@ -468,6 +515,7 @@ impl Scenario for SigChannel {
                 S_SPECIAL_R => "fault.special_encoding_r",
                 S_NONCANONICAL_KEY => "fault.byzantine_noncanonical_key_encoding",
                 S_CRAFTED_S => "fault.byzantine_crafted_equation_boundary_s",
+                S_UNCLAMPED_EXT => "channel.untouched_unclamped_extended_signer",
                 S_TORSION_NONCANONICAL_R => "fault.byzantine_small_order_key_noncanonical_r",
                 _ => "fault.byzantine_small_order_key",
             });
